@@ -25,7 +25,7 @@ func calleeOfCall(info *types.Info, call *ast.CallExpr) string {
 		if o := f.Origin(); o != nil {
 			f = o
 		}
-		return short(f.FullName())
+		return fnName(f.FullName())
 	case *types.Builtin:
 		return "builtin." + f.Name()
 	}
@@ -303,7 +303,7 @@ func (w *World) atomsInto(fi *FuncInfo, fd *funcDefs, e ast.Expr, a *Atoms, seen
 			// parameter / receiver / result
 			a.Idents[typeLabel(o.Type())] = true
 		case *types.Func:
-			a.Calls["func:"+short(o.FullName())] = true
+			a.Calls["func:"+fnName(o.FullName())] = true
 		case *types.TypeName:
 			// type used as value in conversion
 		}
@@ -323,7 +323,7 @@ func (w *World) atomsInto(fi *FuncInfo, fd *funcDefs, e ast.Expr, a *Atoms, seen
 				w.atomsInto(fi, fd, x.X, a, seen, depth+1)
 			case types.MethodVal, types.MethodExpr:
 				if f, ok := sel.Obj().(*types.Func); ok {
-					a.Calls["func:"+short(f.FullName())] = true
+					a.Calls["func:"+fnName(f.FullName())] = true
 				}
 				w.atomsInto(fi, fd, x.X, a, seen, depth+1)
 			}
@@ -339,7 +339,7 @@ func (w *World) atomsInto(fi *FuncInfo, fd *funcDefs, e ast.Expr, a *Atoms, seen
 		case *types.Var:
 			a.Idents["global:"+short(objPkgPath(o))+"."+o.Name()] = true
 		case *types.Func:
-			a.Calls["func:"+short(o.FullName())] = true
+			a.Calls["func:"+fnName(o.FullName())] = true
 		}
 	case *ast.CallExpr:
 		name := calleeOfCall(info, x)
